@@ -127,6 +127,7 @@ def main(argv):
     violations, known, undecided, faults = [], [], [], []
     obligations = discharged = 0
     by_backend, solver_s = {}, 0.0
+    cross = {}
     functions, assumptions, samples_ob, lemmas, canaries = {}, [], [], 0, 0
     refuted = []
     for rep in ded:
@@ -165,6 +166,8 @@ def main(argv):
             if o['status'] == 'unsat':
                 discharged += 1
                 by_backend[o['backend']] = by_backend.get(o['backend'], 0) + 1
+                if str(o.get('detail', '')).startswith('cvc5:'):
+                    cross[o['detail']] = cross.get(o['detail'], 0) + 1
                 if len(samples_ob) < 6 and o['kind'] != 'lemma':
                     samples_ob.append({'obligation': key, 'backend': o['backend'], 'seconds': o['seconds'], 'where': o['where']})
             elif o['status'] == 'sat':
@@ -248,6 +251,7 @@ def main(argv):
             ' '.join(sorted(set(os.path.relpath(p, VERIF) for p, _ in tasks_for(prop)))), smt.z3.get_version_string(), tier),
         'trusted_base': trusted + assumptions,
         'discharged_by_backend': by_backend, 'solver_seconds': round(solver_s, 2),
+        'cross_checked_by_second_solver': cross,
         'functions_under_contract': functions, 'canaries': canaries,
         'deductive_tasks': [{'task': r['task'], 'kind': r['kind'], 'paths': r['paths'], 'seconds': r['seconds'],
                              'obligations': len(r['results']), 'unsupported': r['unsupported']} for r in ded],
